@@ -59,4 +59,41 @@ def closed_solid(rng, cid, rotate=True, sharp=True):
     return p
 
 
+def gear_solid(rng, cid):
+    """a k-lobed gear prism, rho - (R + a cos(k atan2(y, x))) scaled to be 1-Lipschitz near its surface, cut by a slab
+    (and optionally united with a ball): surface in all four quadrants of atan2's arguments"""
+    p = Prog(cid)
+    for c in ("x", "y", "z"):
+        p.emit(c, "axis")
+
+    def const(v):
+        return p.emit(f"const {f2h(v)}", "const")
+
+    def bin_(op, a, b):
+        return p.emit(f"bin {op} {a} {b}", "tree")
+
+    def un(op, a):
+        return p.emit(f"un {op} {a}", "tree")
+    k = rng.choice([3, 4, 5, 7])
+    R, a = rng.uniform(0.7, 0.85), rng.uniform(0.08, 0.14)
+    ang = rng.uniform(0, 2 * math.pi)
+    c, s_ = const(math.cos(ang)), const(math.sin(ang))
+    xr = bin_("OP_ADD", bin_("OP_MUL", c, 0), bin_("OP_MUL", s_, 1))
+    yr = bin_("OP_SUB", bin_("OP_MUL", c, 1), bin_("OP_MUL", s_, 0))
+    rho = un("OP_SQRT", bin_("OP_ADD", un("OP_SQUARE", xr), un("OP_SQUARE", yr)))
+    th = bin_("OP_ATAN2", yr, xr)
+    lobes = bin_("OP_MUL", const(a), un("OP_COS", bin_("OP_MUL", const(float(k)), th)))
+    scale = 1.0 / math.sqrt(1.0 + (a * k / (R - a)) ** 2)
+    side = bin_("OP_MUL", const(scale), bin_("OP_SUB", rho, bin_("OP_ADD", const(R), lobes)))
+    slab = bin_("OP_SUB", un("OP_ABS", 2), const(rng.uniform(0.3, 0.6)))
+    cur = bin_("OP_MAX", side, slab)
+    if rng.random() < 0.4:
+        d = [bin_("OP_SUB", ax, const(rng.uniform(-0.3, 0.3))) for ax in (0, 1, 2)]
+        sph = bin_("OP_SUB", un("OP_SQRT", bin_("OP_ADD", bin_("OP_ADD", un("OP_SQUARE", d[0]), un("OP_SQUARE", d[1])), un("OP_SQUARE", d[2]))),
+                   const(rng.uniform(0.4, 0.6)))
+        cur = bin_("OP_MIN", cur, sph)
+    p.root = cur
+    return p
+
+
 BOX3 = (-1.6, -1.6, -1.6, 1.6, 1.6, 1.6)
